@@ -126,6 +126,17 @@ def grouping_of(repo: Repo, fn: Function) -> Grouping:
                 target = None
                 if k.arg == "key" and isinstance(k.value, ast.Name):
                     target = nested.get(k.value.id) or toplevel.get(k.value.id)
+                    if target is None:
+                        # a score function shared between the emitters: imported from another module of the package
+                        imp = mod.imports.get(k.value.id)
+                        tm = (repo.modules.get(imp[0]) or repo.modules.get("pyopenapi_gen." + imp[0])) if imp and imp[1] else None
+                        if tm is not None and imp[1] in tm.functions:
+                            target = tm.functions[imp[1]]
+                    if target is None:
+                        # the call was inlined from a helper of another module: a package-wide unique top-level function of that name
+                        cands_ = [m_.functions[k.value.id] for m_ in repo.modules.values() if k.value.id in m_.functions and "." not in m_.functions[k.value.id].qualname]
+                        if len(cands_) == 1:
+                            target = cands_[0]
                 elif k.arg == "key" and isinstance(k.value, ast.Attribute) and isinstance(k.value.value, ast.Name) and k.value.attr in methods:
                     target = methods[k.value.attr]
                 if target is not None:
